@@ -347,16 +347,17 @@ class CGen:
             return self.atom_num(env, d)
         if k < 0.3:
             return bop(r.choice('+-*'), self.atom_num(env, d - 1), self.atom_num(env, d - 1))
-        if k < 0.4 and d >= 2:
+        if k < 0.44 and d >= 2:
             # an assignment inside the expression (so: inside lambda bodies and lazily evaluated arguments) whose
             # right-hand side is evaluated in the current lexical scope, followed by a use of the assigned name
             v = self.vis(env)
             ok = [t for t in self.targets if v.get(t) in (None, 'N')]
             if ok:
                 t = r.choice(ok)
-                rhs = self.num_expr(env, d - 2)
+                b_ = self.bare_num(env[-3:])            # the innermost bindings: parameters, when inside a lambda
+                rhs = bop(r.choice('+*'), b_, self.atom_num(env, 0)) if b_ and r.random() < 0.7 else self.num_expr(env, d - 2)
                 return par(seq(setv(t, rhs), self.num_expr(env + ([] if t in v else [(t, 'N')]), d - 2)))
-        if k < 0.44:
+        if k < 0.47:
             # closure - number applies the closure to the negated number
             return bop('-', self.fn_atom(env, d - 1), num(r.randint(1, 5)))
         if k < 0.7:
@@ -384,7 +385,9 @@ class CGen:
                 return par(a)
         if k < 0.63:
             return idt('abs')
-        if k < 0.75 and d > 0:
+        if k < 0.7:
+            return self.capturing_closure(env, twice=(r.random() < 0.5))
+        if k < 0.8 and d > 0:
             # arithmetic between a number and a closure (either side) builds a new lambda that must keep the
             # closure's captured scope; the closure is preferably a stored or partially applied one
             g = self.fn_atom(env, d - 1)
@@ -392,6 +395,22 @@ class CGen:
             return par(bop(r.choice('+*'), g, n) if r.random() < 0.5 else bop(r.choice('+*'), n, g))
         x = r.choice(POOL)
         return par(fn(x, self.num_expr(env + [(x, 'N')], d - 1)))
+
+    def capturing_closure(self, env, twice=False):
+        """a closure value with a non-empty captured scope: (x: y: body) arg -- x preferably a name that is also a
+        global, body reads x.  twice: (x: (x: (y: body)) arg2) arg1, the captured chain binds x two times."""
+        r = self.r
+        gl = self.names(env, 'N')
+        x = r.choice(gl) if gl and r.random() < 0.7 else r.choice(POOL)
+        y = r.choice([n for n in POOL if n != x])
+        e2 = env + [(x, 'N'), (y, 'N')]
+        body = bop(r.choice('+-*'), idt(y), idt(x)) if r.random() < 0.6 else bop('+', idt(x), self.num_expr(e2, 1))
+        arg = lambda: (self.atom_num(env, 0) if r.random() < 0.6 else num(r.randint(0, 9)))
+        inner = par(fn(y, body))
+        if twice:
+            mid = application(par(fn(x, inner)), arg())
+            return par(application(par(fn(x, par(mid) if mid[0] != 'par' else mid)), arg()))
+        return par(application(par(fn(x, inner)), arg()))
 
     def fn2_atom(self, env, d):
         r = self.r
@@ -562,6 +581,13 @@ BOUNDARY_RAW = [
     ['f = (x: x + q)', 'f 1', 'q = 5', 'f 1'],
     ['c = (x: y: z: x + y * z)', 'c 1 2 3', '((c 1) 2) 3', 'd = c 1 2', 'd 3'],
     ['s = (f: g: x: f x (g x))', 'kk = (x: y: x)', '(s kk kk) 7'],
+    # arithmetic on a closure with a captured binding, while a global of that name has another value
+    ['a = 100', 'g = (a: x: x + a) 3', '(2 * g) 4', '(g * 2) 4', '(2 + g) 4', 'h = 3 * g', 'a = 7', 'h 1', '(h + 1) 1', '(g - 4)'],
+    # assignments inside lambda bodies and lazy arguments: the right-hand side sees parameters and captured bindings
+    ['x = 100', '(x: (tq = x * 2; tq + 1)) 5', 'tq', 'f = (a: b: (rq = a * 10 + b; rq))', 'f 3 4', 'rq', 'g = f 5', 'g 6', 'rq',
+     '(y: y + y) (wq = x + 1)', 'wq', '(x: (y: (vq = x + y; vq)) 2) 1', 'vq'],
+    # the captured chain binds the same name twice
+    ['f = (x: (x: (y: x + y)) 2) 1', 'f 10', 'k = (x: (x: (x: x)) 2) 1', 'k 10'],
 ]
 
 # one-letter names are units or constants when undefined (a = ampere, h = hour, tw = terawatt ...): the model has no
@@ -664,6 +690,7 @@ def check(c):
                 if got is None or strip_par(got, t.count(')')) != e:
                     drift += 1
         prev_vars = {}
+        assigned_somewhere = set()      # a stored lambda may assign when it is called: any name assigned in the text so far may change
         md = models.get(hi)
         if md is None:
             unsupported += 1
@@ -672,7 +699,8 @@ def check(c):
             rep = {'history': h, 'step': si, 'input': t}
             # --- history laws (spec as predicate on the implementation's own observations)
             tree = trees[t]
-            explicit = assigns(tree) if tree else set()
+            assigned_somewhere |= (assigns(tree) if tree else set())
+            explicit = set(assigned_somewhere)
             if okf:
                 for nm in ('_', 'ans'):
                     if vars_.get(nm) != (True, val) and not (t.strip() == ''):
@@ -849,7 +877,7 @@ def check(c):
     for _ in range(nfa):
         pre, env = gen_collision_history(r, nsteps=r.randint(2, 5))
         g = CGen(r)
-        G = g.fn_atom(env, 2)
+        G = g.capturing_closure(env, twice=(r.random() < 0.3)) if r.random() < 0.5 else g.fn_atom(env, 2)
         if G == idt('abs'):
             continue
         n_ = num(r.randint(2, 5))
@@ -886,8 +914,24 @@ def check(c):
         j = r.randint(1, len(h) - 1)
         t = [show(e) for e in h]
         rt.append((t, t[:j] + ['@@roundtrip'] + t[j:], j))
-    if len(rt) > (300 if c.tier == 'quick' else 8000):
-        rt = r.sample(rt, 300 if c.tier == 'quick' else 8000)
+    if len(rt) > (200 if c.tier == 'quick' else 8000):
+        rt = r.sample(rt, 200 if c.tier == 'quick' else 8000)
+    # stored closures whose captured chain binds the same name twice (and once), used after the reload
+    fixed = [['f = (x: (x: (y: x + y)) 2) 1', 'f 10'], ['a = 5', 'g = (a: x: x + a) 3', 'h = 2 * g', 'h 4', 'g 1']]
+    for t in fixed:
+        rt.append((t, t[:-1] + ['@@roundtrip'] + t[-1:], len(t) - 1))
+    for _ in range(200 if c.tier == 'quick' else 4000):
+        pre, env = gen_collision_history(r, nsteps=r.randint(0, 2))
+        g = CGen(r)
+        free = [n for n in POOL if n not in dict(env)]
+        if not free:
+            continue
+        name = r.choice(free)
+        clo = g.capturing_closure(env, twice=(r.random() < 0.7))
+        uses = [application(idt(name), g.atom_num(env, 0)) for _ in range(2)]
+        t = [show(e) for e in pre + [setv(name, clo)] + uses]
+        j = len(pre) + 1
+        rt.append((t, t[:j] + ['@@roundtrip'] + t[j:], j))
     il = c.impl('eval', [evalseq_req(0, [(x, -1) for x in a]) for a, _, _ in rt] + [evalseq_req(0, [(x, -1) for x in b]) for _, b, _ in rt])
     nrt, rt_failed = len(rt), 0
     for i, (a_, b_, j) in enumerate(rt):
